@@ -13,6 +13,7 @@ import sys
 OPS = ('bool', 'word', 'integer', 'char', 'choice', 'sample', 'caps')
 OPC = {o: i for i, o in enumerate(OPS)}
 TRACE = [] if os.environ.get('VERIF_TRACE_DRAWS') else None
+EVENTS = [] if os.environ.get('VERIF_DEBUG_EVENTS') else None
 
 
 class SimAbort(BaseException):
@@ -385,6 +386,8 @@ class Sim:
     def event(self, text):
         self.nevents += 1
         self.log.update(text.encode('utf-8', 'replace') + b'\n')
+        if EVENTS is not None:
+            EVENTS.append('%s @%.3f w=%d' % (text, self.now - 1_600_000_000.0, self.work_units))
 
     def log_digest(self):
         return self.log.hexdigest()[:16]
